@@ -1098,3 +1098,66 @@ func TestFoFree(t *testing.T) {
 		res.Steps += len(s.events)
 	}
 }
+
+// TestTTLCell enumerates WithTTL / TTL sequences exhaustively over a small grid (values in units of a second, both
+// signs and zero; 0-3 hints; with and without an existing cell; both updateExisting modes) for TTLCellTrace.tla.
+func TestTTLCell(t *testing.T) {
+	outp := os.Getenv("VERIF_TRACE_OUT")
+	if outp == "" || os.Getenv("VERIF_TTLCELL") == "" {
+		t.Skip("VERIF_TTLCELL not set")
+	}
+
+	res := Result{Extra: map[string]interface{}{}}
+
+	defer func() { mustNoErr(writeJSON(os.Getenv("VERIF_OUT"), res), "write result") }()
+
+	f, err := os.Create(outp)
+	mustNoErr(err, "trace out")
+
+	defer f.Close()
+
+	enc := json.NewEncoder(f)
+	vals := []int{-2, -1, 0, 1, 2, 3}
+
+	var seqs [][]int
+
+	seqs = append(seqs, []int{})
+
+	for _, a := range vals {
+		seqs = append(seqs, []int{a})
+
+		for _, b := range vals {
+			seqs = append(seqs, []int{a, b})
+
+			for _, c := range []int{-1, 0, 2} {
+				seqs = append(seqs, []int{a, b, c})
+			}
+		}
+	}
+
+	for _, has := range []bool{false, true} {
+		for _, c := range vals {
+			if !has && c != 0 {
+				continue
+			}
+
+			for _, upd := range []bool{false, true} {
+				for _, hs := range seqs {
+					ctx := context.Background()
+					if has {
+						ctx = cache.WithTTL(ctx, time.Duration(c)*time.Second, false)
+					}
+
+					last := ctx
+					for _, h := range hs {
+						last = cache.WithTTL(ctx, time.Duration(h)*time.Second, upd)
+					}
+
+					_ = enc.Encode(map[string]interface{}{"has": has, "c": c, "upd": upd, "hints": append([]int{}, hs...),
+						"got": int(cache.TTL(ctx) / time.Second), "fresh": int(cache.TTL(last) / time.Second)})
+					res.Evaluations++
+				}
+			}
+		}
+	}
+}
